@@ -354,10 +354,23 @@ def k10(ctx, rid):
         if f.id == root:
             n += 1
         for c in f.calls:
-            if c.path.startswith('std::io::Error') and c.name in ('new', 'other', 'from') and c.bb in f.reachable():
+            makes_err = c.path.startswith('std::io::Error') and c.name in ('new', 'other', 'from')
+            if not makes_err and c.name in ('into', 'from') and c.dest and f.locals[c.dest[0]]['s'].startswith('std::io::Error') and c.args \
+               and 'ErrorKind' in f.locals[op_local(c.args[0])]['s'] if (c.args and op_local(c.args[0]) is not None) else False:
+                makes_err = True
+            if makes_err and c.bb in f.reachable():
                 kinds = [o.data.get('variant') for o in core.origins(f, c.args[0]) if o.kind == 'agg' and o.data.get('adt') == 'std::io::ErrorKind'] if c.args else []
                 if kinds and all(k == 'UnexpectedEof' for k in kinds):
-                    ctx.ok(rid, 'read-error-kind|%s' % root, c.where(), 'UnexpectedEof')
+                    # pre-empting the OS is right only when the requested *range* does not fit: the decision must involve the
+                    # length of the read, not the offset alone (a zero-length read at the very end of a file is satisfiable)
+                    lv = set()
+                    for sw in core.deciding_switches(f, c.bb):
+                        lv |= core.scalar_leaves(prog, f, f.blocks[sw]['t']['o'], depth=1)
+                    if ('call', 'len') in lv or any(k2 == 'arg' and 'size' in str(v2) for (k2, v2) in lv) or ('call', 'remaining') in lv:
+                        ctx.ok(rid, 'read-error-kind|%s' % root, c.where(), 'UnexpectedEof, decided on the requested range')
+                    else:
+                        bad += 1
+                        ctx.bad(rid, 'read-error-kind|%s' % root, c.where(), 'the read wrapper `%s` fails with UnexpectedEof on a condition that does not involve the length of the read (%s): a satisfiable read - zero bytes at the end of the file, the data of a trailing deletion record - is refused and a valid blob is treated as cut short' % (root.split('::')[-1], sorted(str(x) for x in lv)[:4]))
                 else:
                     bad += 1
                     ctx.bad(rid, 'read-error-kind|%s' % root, c.where(), 'the read wrapper `%s` constructs an io::Error of kind %s: the open path classifies only UnexpectedEof as "file cut short" (quarantine); with this kind a blob cut by a power loss makes Storage::init fail' % (root.split('::')[-1], kinds or c.name))
